@@ -9,6 +9,7 @@ MC_RetInt   == {TInt}
 MC_RetIntBool == {TInt, TBool}
 MC_RetOptInt == {TOpt(TInt)}
 MC_RetP == {TP}
+MC_RetOps == {TBool}
 
 (* Exprs(MaxDepth, t) for every root type; evaluated once (constant level).  Only meaningful
    for the exhaustive configurations (MaxDepth <= 1): deeper sets exceed TLC's set limits.   *)
